@@ -777,6 +777,58 @@ class World:
             self._xref(i, {"kind": "classify", "struct": self.spec["structures"][op["s"]], "kwargs": kwargs}, dg)
         return ev
 
+    def _op_CLASSIFY_EDGE(self, i, op):
+        """Boundary probing of the min_coverage knob: an isolated probe run with
+        min_coverage=0 tells how many atoms the best region covers (b of n); the
+        real call then uses min_coverage just above b/n, where a Surface/Material2D
+        answer would cover less than min_coverage of the atoms."""
+        import matid.geometry
+        from matid.classification.classifier import Classifier
+
+        atoms = self._atoms(op["s"])
+        n = len(atoms)
+        kwargs = dict(self.spec.get("instances", {}).get(op["inst"], {}).get("kwargs", {}))
+        key = sha(["edgeprobe", op["s"], kwargs])
+        probe = self.ref_cache.get(key)
+        if probe is None:
+            self._journal(i, "ref")
+            with _GlobalEnv():
+                out, sm = self._run_classify(self._pristine(op["s"]), Classifier(**dict(kwargs, min_coverage=0.0)), budget=20_000_000)
+            probe = {"b": None}
+            if out[0] == "ok" and type(out[1]).__name__ in ("Surface", "Material2D"):
+                try:
+                    probe["b"] = len(set(int(x) for x in out[1].basis_indices))
+                except Exception:
+                    pass
+            self.ref_cache[key] = probe
+        b = probe["b"]
+        if b is None or b >= n:
+            return {"out": "skip"}
+        mc = (b + 0.5) / n
+        kw2 = dict(kwargs, min_coverage=mc)
+        self._journal(i, "real")
+        out, sm = self._run_classify(atoms, Classifier(**kw2), budget=20_000_000)
+        ev = {"out": out[0], "mc": mc, "b": b}
+        if out[0] == "hang":
+            self._violate("HANG", i, str(out[1]))
+            return ev
+        if out[0] == "exc":
+            e = out[1]
+            self._violate("UNEXPECTED_EXC", i, "classify raised %s" % _exc_desc(e), exc=type(e).__name__, site=_where(e))
+            return ev
+        cl = out[1]
+        w = self._pristine(op["s"])
+        w.wrap()
+        ref_dim = matid.geometry.get_dimensionality(w, kwargs.get("cluster_threshold", 3.5))
+        errs = oracles.classification_consistent(atoms, kw2, cl, ref_dim)
+        ev["type"] = type(cl).__name__
+        if errs:
+            self._violate(errs[0][0], i, errs[0][1] + " [min_coverage=%.6f just above the best region's %d/%d]" % (mc, b, n))
+            return ev
+        self.probes["coverage_edge_probed"] += 1
+        self.nontrivial.add(sha(["edge", op["s"], kw2]))
+        return ev
+
     def _op_CLASSIFY_BAD(self, i, op):
         atoms = self._atoms(op["s"])
         clf = self._instance(op["inst"], "Classifier")
